@@ -69,15 +69,16 @@ def run_property(pid, tier="quick", repo_root=None, jobs=None):
     schema = _load()
     from specs import properties as P
     info = P.PROPS[pid]
-    keys = [k for k, c in schema.contracts.items() if not c.trusted and pid in c.props]
+    keys = [k for k, c in schema.contracts.items() if not c.trusted and pid in c.props and not getattr(c, "trusted_summary", False)]
     keys = sorted(set(keys) | set(info.get("functions", [])))
+    assumed_own = sorted(k for k, c in schema.contracts.items() if not c.trusted and pid in c.props and getattr(c, "trusted_summary", False))
     findings = load_findings()
     lines = []
     errors = []
     own = set(keys)
     outs = []
     done = set()
-    assumed_loky = set()
+    assumed_loky = set(assumed_own)
     todo = list(keys)
     with mp.get_context("fork").Pool(jobs or 16) as pool:
         while todo:
